@@ -8,6 +8,8 @@
 //
 //	incdec     i++ / i-- become i += 1 / i -= 1
 //	neg-if     if c { A } else { B } becomes if !(c) { B } else { A } (no else-if chains)
+//	guard      a trailing if c { A } becomes if !(c) { return / continue }; A
+//	minmax     x := A; if B < x { x = B } becomes x := min(A, B)
 //	rangeint   for i := 0; i < N; i++ becomes for i := range N
 //	switch-if  a small tagged switch becomes an if / else-if chain
 //	demorgan   !(a) introduced: a && b becomes !(!(a) || !(b)) for boolean conditions of if statements
@@ -216,6 +218,106 @@ func main() {
 							} else {
 								blk.List[k] = &ast.RangeStmt{X: cond.Y, Body: fs.Body}
 							}
+							n++
+						}
+					}
+				case "minmax":
+					// x := A; if B < x { x = B }   ->   x := min(A, B)     (and the > / max form)
+					if blk, ok := node.(*ast.BlockStmt); ok {
+						for k := 0; k+1 < len(blk.List); k++ {
+							as, ok := blk.List[k].(*ast.AssignStmt)
+							if !ok || len(as.Lhs) != 1 || len(as.Rhs) != 1 || (as.Tok != token.DEFINE && as.Tok != token.ASSIGN) {
+								continue
+							}
+							xv, ok := as.Lhs[0].(*ast.Ident)
+							if !ok {
+								continue
+							}
+							is, ok := blk.List[k+1].(*ast.IfStmt)
+							if !ok || is.Init != nil || is.Else != nil || len(is.Body.List) != 1 {
+								continue
+							}
+							cond, ok := is.Cond.(*ast.BinaryExpr)
+							if !ok {
+								continue
+							}
+							inner, ok := is.Body.List[0].(*ast.AssignStmt)
+							if !ok || inner.Tok != token.ASSIGN || len(inner.Lhs) != 1 || len(inner.Rhs) != 1 || types.ExprString(inner.Lhs[0]) != xv.Name {
+								continue
+							}
+							b := types.ExprString(inner.Rhs[0])
+							l, r := types.ExprString(cond.X), types.ExprString(cond.Y)
+							fn := ""
+							switch {
+							case cond.Op == token.LSS && l == b && r == xv.Name, cond.Op == token.GTR && l == xv.Name && r == b:
+								fn = "min"
+							case cond.Op == token.GTR && l == b && r == xv.Name, cond.Op == token.LSS && l == xv.Name && r == b:
+								fn = "max"
+							default:
+								continue
+							}
+							// both operands must have the same (integer or float) type for the builtin
+							ta, tb := p.TypesInfo.TypeOf(as.Rhs[0]), p.TypesInfo.TypeOf(inner.Rhs[0])
+							if ta == nil || tb == nil || !types.Identical(ta, tb) {
+								continue
+							}
+							if _, isCall := inner.Rhs[0].(*ast.CallExpr); isCall {
+								continue
+							}
+							// a package-level min / max would shadow the builtin
+							if p.Types.Scope().Lookup(fn) != nil {
+								continue
+							}
+							as.Rhs[0] = &ast.CallExpr{Fun: ast.NewIdent(fn), Args: []ast.Expr{as.Rhs[0], inner.Rhs[0]}}
+							blk.List = append(blk.List[:k+1], blk.List[k+2:]...)
+							n++
+						}
+					}
+				case "guard":
+					// a trailing `if c { A }` becomes a guard clause: `if !(c) { return }; A` at the end of a
+					// function without results, `if !(c) { continue }; A` at the end of a loop body
+					tail := func(list []ast.Stmt, exit ast.Stmt) ([]ast.Stmt, bool) {
+						if len(list) == 0 {
+							return list, false
+						}
+						is, ok := list[len(list)-1].(*ast.IfStmt)
+						if !ok || is.Init != nil || is.Else != nil || len(is.Body.List) == 0 {
+							return list, false
+						}
+						// declarations inside A would collide with the enclosing scope only if names repeat: skip bodies that declare
+						declares := false
+						for _, st := range is.Body.List {
+							if as, ok := st.(*ast.AssignStmt); ok && as.Tok == token.DEFINE {
+								declares = true
+							}
+							if _, ok := st.(*ast.DeclStmt); ok {
+								declares = true
+							}
+						}
+						if declares {
+							return list, false
+						}
+						g := &ast.IfStmt{Cond: &ast.UnaryExpr{Op: token.NOT, X: &ast.ParenExpr{X: is.Cond}}, Body: &ast.BlockStmt{List: []ast.Stmt{exit}}}
+						out := append(append([]ast.Stmt{}, list[:len(list)-1]...), g)
+						out = append(out, is.Body.List...)
+						return out, true
+					}
+					switch t := node.(type) {
+					case *ast.FuncDecl:
+						if t.Body != nil && (t.Type.Results == nil || len(t.Type.Results.List) == 0) {
+							if l, ok := tail(t.Body.List, &ast.ReturnStmt{}); ok {
+								t.Body.List = l
+								n++
+							}
+						}
+					case *ast.ForStmt:
+						if l, ok := tail(t.Body.List, &ast.BranchStmt{Tok: token.CONTINUE}); ok {
+							t.Body.List = l
+							n++
+						}
+					case *ast.RangeStmt:
+						if l, ok := tail(t.Body.List, &ast.BranchStmt{Tok: token.CONTINUE}); ok {
+							t.Body.List = l
 							n++
 						}
 					}
